@@ -1173,7 +1173,7 @@ func (ex *Exec) execRange(p *Path, st *ast.RangeStmt) []outcome {
 		if heapW {
 			ex.havocMutableHeap(it)
 			if ex.traceEvents {
-				ex.havocGhost(it)
+				ex.havocGhostBody(it, st.Body)
 			}
 		}
 		i := ex.c.Fresh("i", "Int")
@@ -1240,7 +1240,7 @@ func (ex *Exec) execRange(p *Path, st *ast.RangeStmt) []outcome {
 		if heapW {
 			ex.havocMutableHeap(it)
 			if ex.traceEvents {
-				ex.havocGhost(it)
+				ex.havocGhostBody(it, st.Body)
 			}
 		}
 		d := ex.c.Fresh("done", doneSort)
@@ -1323,7 +1323,7 @@ func (ex *Exec) execFor(p *Path, st *ast.ForStmt) []outcome {
 	if heapW {
 		ex.havocMutableHeap(it)
 		if ex.traceEvents {
-			ex.havocGhost(it)
+			ex.havocGhostBody(it, st.Body)
 		}
 	}
 	ex.assumeInvariants(it, invs)
